@@ -171,7 +171,7 @@ func init() {
 			"with and without LRU/LFU, a third of the histories with the real janitor at 1ms and a count limit (evictions recorded at its cache_evict call-out); call/return stamped from one atomic logical clock at the client boundary with seeded delays; " +
 			"porcupine NondeterministicModel per key (batch ops, evictions and partner writes inserted into every affected key's partition) + walk monitor (reported tokens were written under the key; keys stable during the walk reported exactly once); " +
 			"distinct_nontrivial = distinct histories (hash of the per-key outcome patterns) containing at least one pair of real-time-concurrent conflicting operations on one key",
-		Required:    []string{"histories", "partitions.ok", "histories.concurrent_conflict", "ops.read", "ops.write", "ops.delete", "ops.expireall", "ops.deleteall", "ops.walk", "walk.stable_keys.checked", "bulkwalk.cases", "evictions.recorded", "cleanup_cycles.recorded", "kind.ShardedMap", "kind.SyncMap", "kind.ShardedMapOf", "writes.equal_values_on_colliding_pair", "histories.cleanup_with_crowded_shard"},
+		Required:    []string{"histories", "partitions.ok", "histories.concurrent_conflict", "ops.read", "ops.write", "ops.delete", "ops.expireall", "ops.deleteall", "ops.walk", "walk.stable_keys.checked", "bulkwalk.cases", "evictions.recorded", "cleanup_cycles.recorded", "kind.ShardedMap", "kind.SyncMap", "kind.ShardedMapOf", "writes.equal_values_on_colliding_pair", "histories.cleanup_with_crowded_shard", "histories.unlimited_default_ttl"},
 		Assumptions: []string{"a batch operation is modelled as acting on each key at one instant within its call; an eviction cycle as {unchanged, removed} within [previous janitor call-out, cache_evict call-out]", "checker timeout (30s per key partition) = inconclusive"},
 		Timeout:     func(string) time.Duration { return 45 * time.Minute },
 		ChildEnv:    []string{"GOMAXPROCS=8"},
@@ -249,6 +249,14 @@ func c08Case(b *Batch, idx int) {
 	var clock int64
 	jan := &linJanitor{clock: &clock}
 	cfg := cache.Config{EvictionStrategy: strat, DeleteExpiredAfter: 100 * time.Hour, ExpirationJitter: -1}
+	// a quarter of the histories run on an UnlimitedTTL cache whose fresh writes carry no context TTL (never-expiring entries);
+	// in half of those no write carries a TTL at all, so ExpireAll is the only source of expiry ("no expiration was ever set")
+	unl := rng.Intn(4) == 0
+	neverOnly := unl && rng.Intn(2) == 0
+	if unl {
+		cfg.TimeToLive = cache.UnlimitedTTL
+		b.R.Count("histories.unlimited_default_ttl", 1)
+	}
 	if pairOnly {
 		prof = [6]int{25, 60, 92, 94, 96, 20} // delete-heavy
 		b.R.Count("histories.colliding_pair_only", 1)
@@ -331,8 +339,11 @@ func c08Case(b *Batch, idx int) {
 						tok = fmt.Sprintf("e/%d", r.Intn(2)) // equal values under the two colliding keys
 						atomic.AddInt64(&equalVals, 1)
 					}
-					exp := r.Intn(100) < prof[5]
+					exp := r.Intn(100) < prof[5] && !neverOnly
 					ctx := cache.WithTTL(bg, time.Hour, false)
+					if unl {
+						ctx = bg
+					}
 					if exp {
 						ctx = cache.WithTTL(bg, -time.Hour, false)
 					}
